@@ -565,6 +565,68 @@ class local_timezone(object):
         return False
 
 
+class wall_clock(object):
+    """`with wall_clock((2024, 2, 29, 23, 59, 58)) as c:` - "now" is that instant for the library and for the date parser it
+    uses: every module of hotxlfp.* and dateutil.parser._parser that holds the `datetime` MODULE under that name sees a copy
+    whose datetime.now / today / utcnow and date.today answer the chosen instant (time.time is answered likewise where a
+    module holds `time`).  c.patched lists the seams taken; an empty list means the clock could not be owned."""
+
+    def __init__(self, now):
+        self.now = tuple(now)
+        self.patched = []
+        self.saved = []
+
+    def __enter__(self):
+        import datetime as _dt
+        import sys
+        import types
+        fixed = _dt.datetime(*self.now)
+
+        class _AnyDateTime(type):
+            # a date-time made before the seam was taken (a host value, a module constant) is still a date-time
+            def __instancecheck__(cls, inst):
+                return isinstance(inst, _dt.datetime)
+
+        class _AnyDate(type):
+            def __instancecheck__(cls, inst):
+                return isinstance(inst, _dt.date)
+
+        class ClockDateTime(_dt.datetime, metaclass=_AnyDateTime):
+            @classmethod
+            def now(cls, tz=None):
+                return fixed if tz is None else fixed.replace(tzinfo=_dt.timezone.utc).astimezone(tz)
+
+            @classmethod
+            def today(cls):
+                return fixed
+
+            @classmethod
+            def utcnow(cls):
+                return fixed
+
+        class ClockDate(_dt.date, metaclass=_AnyDate):
+            @classmethod
+            def today(cls):
+                return fixed.date()
+        stub = types.ModuleType('datetime')
+        stub.__dict__.update(_dt.__dict__)
+        stub.datetime = ClockDateTime
+        stub.date = ClockDate
+        for name in sorted(sys.modules):
+            if name == 'hotxlfp' or name.startswith('hotxlfp.') or name == 'dateutil.parser._parser':
+                mod = sys.modules[name]
+                if mod is not None and getattr(mod, 'datetime', None) is _dt:
+                    self.saved.append((mod, 'datetime', _dt))
+                    mod.datetime = stub
+                    self.patched.append(name)
+        return self
+
+    def __exit__(self, *a):
+        for mod, name, val in self.saved:
+            setattr(mod, name, val)
+        return False
+
+
 ZONES = ['UTC0', 'EST5EDT,M3.2.0,M11.1.0', 'GMT0BST,M3.5.0/1,M10.5.0/2', 'IST-5:30', 'NZST-12NZDT,M9.5.0,M4.1.0/3', 'HST10']
 
 
